@@ -8,7 +8,7 @@ use crate::opt::{run_script, OptCfg, WorsePolicy};
 use crate::props::c07::count_worse_trials;
 
 pub const TITLE: &str = "The temperature follows the requested annealing schedule";
-pub const RULE: &str = "cases = kt_start log-uniform in [1e-3,10] (or 0), one cooling factor per loop f in [0.3,1] given either as kt_ratio = 1-f or as kt_finish = kt_start f^L, L in 1..12 inner loops of 1000 or 4000 steps (thorough: 8000/20000), steps = L*inner plus an optional remainder; for L <= 5 optionally with a convergence threshold that every loop meets (it cannot end such a run and must not alter the schedule). Synthetic state with 8 parameters, max_step 1e-3 (no clamping); in loop i every proposal is worse by d_i = ln2 * kt_start f^(i-1), so a correct schedule accepts about half of them in every loop and a wrong one drifts to 0 or 1. Per loop the acceptance frequency gives a 6-sigma interval for kT_i = -d_i / ln p. Checked: first and second half of each loop agree (constant kT within a loop); kT_1 = kt_start; ratio path: kT_i = kt_start (1-ratio)^(i-1) for all i; finish path: one factor g explains all loops and puts the last loop within one cooling step of kt_finish (kt_finish*g <= kT_L <= kt_finish/g); kt_start = 0: no worse move accepted in any loop. Non-trivial = L >= 3; distinct by hash of the case.";
+pub const RULE: &str = "cases = kt_start log-uniform in [1e-3,10] (or 0), one cooling factor per loop f in [0.3,1] (a sixth of the finish-path cases: f log-uniform in [1e-20,1e-1], measured from a score re-centred to exactly 0 after every accepted move) given either as kt_ratio = 1-f or as kt_finish = kt_start f^L, L in 1..12 inner loops of 1000 or 4000 steps (thorough: 8000/20000), steps = L*inner plus an optional remainder; for L <= 5 optionally with a convergence threshold that every loop meets (it cannot end such a run and must not alter the schedule). Synthetic state with 8 parameters, max_step 1e-3 (no clamping); in loop i every proposal is worse by d_i = ln2 * kt_start f^(i-1), so a correct schedule accepts about half of them in every loop and a wrong one drifts to 0 or 1. Per loop the acceptance frequency gives a 6-sigma interval for kT_i = -d_i / ln p. Checked: first and second half of each loop agree (constant kT within a loop); kT_1 = kt_start; ratio path: kT_i = kt_start (1-ratio)^(i-1) for all i; finish path: one factor g explains all loops and puts the last loop within one cooling step of kt_finish (kt_finish*g <= kT_L <= kt_finish/g); kt_start = 0: no worse move accepted in any loop. Non-trivial = L >= 3; distinct by hash of the case.";
 
 pub fn assumptions() -> Vec<&'static str> {
     vec![
@@ -30,6 +30,10 @@ pub struct SchedCase {
     /// can never end the run (more than five consecutive converged loops are needed) and must not change the schedule
     #[serde(default)]
     pub with_convergence: bool,
+    /// extreme cooling: log10 of the per-loop factor (1e-20 .. 1e-1), finish path only; the worse moves are then measured
+    /// from a score kept at exactly 0 so that differences of 1e-200 remain representable
+    #[serde(default)]
+    pub extreme_exp: Option<f64>,
 }
 
 fn strat(_: &Ctx) -> BoxedStrategy<SchedCase> {
@@ -42,8 +46,12 @@ fn strat(_: &Ctx) -> BoxedStrategy<SchedCase> {
         prop_oneof![Just(0u64), 1u64..900],
         any::<u64>(),
         prop_oneof![2 => Just(false), 1 => Just(true)],
+        prop_oneof![5 => Just(None), 1 => (-20.0..-1.0f64).prop_map(Some)],
     )
-        .prop_map(|(kt_start, f, by_ratio, loops, big_inner, remainder, seed, with_convergence)| SchedCase { kt_start, f, by_ratio, loops, big_inner, remainder, seed, with_convergence })
+        .prop_map(|(kt_start, f, by_ratio, loops, big_inner, remainder, seed, with_convergence, extreme_exp)| match extreme_exp {
+            Some(e) if kt_start > 0. => SchedCase { kt_start, f: 10f64.powf(e), by_ratio: false, loops, big_inner, remainder, seed, with_convergence, extreme_exp },
+            _ => SchedCase { kt_start, f, by_ratio, loops, big_inner, remainder, seed, with_convergence, extreme_exp: None },
+        })
         .boxed()
 }
 
@@ -78,7 +86,7 @@ fn oracle(c: &SchedCase, rec: &Rec, ctx: &Ctx) -> Result<(), String> {
     let cfg = OptCfg { steps, inner, kt_start: c.kt_start, kt_finish, kt_ratio, max_step: 1e-3, convergence, seed: c.seed };
     let zero = c.kt_start == 0.;
     let d: Vec<f64> = (0..l).map(|i| if zero { 1e-3 } else { std::f64::consts::LN_2 * c.kt_start * c.f.powi(i as i32) }).collect();
-    let policy = WorsePolicy { d_per_loop: d.clone(), inner, proposals: cfg.proposals(), base: 0. };
+    let policy = WorsePolicy { d_per_loop: d.clone(), inner, proposals: cfg.proposals(), base: 0., recentre: c.extreme_exp.is_some() };
     let out = run_script(&cfg, &vec![0.5; 8], &vec![(0., 1.); 8], zero, true, Box::new(policy));
     rec.eval(out.steps.len() as u64 + 1);
     if let Some(p) = &out.panicked {
@@ -110,7 +118,8 @@ fn oracle(c: &SchedCase, rec: &Rec, ctx: &Ctx) -> Result<(), String> {
             let a = count_worse_trials(&out, first, mid);
             let b = count_worse_trials(&out, mid + 1, last);
             let all = count_worse_trials(&out, first, last);
-            if all.trials < inner / 2 {
+            // re-centred runs spend a third of their steps on the way back to the base score
+            if all.trials < if c.extreme_exp.is_some() { inner / 4 } else { inner / 2 } {
                 return Err(format!("loop {}: only {} of {} steps could be counted; the check is starved", i + 1, all.trials, inner));
             }
             // (1) constant within the loop
@@ -145,19 +154,20 @@ fn oracle(c: &SchedCase, rec: &Rec, ctx: &Ctx) -> Result<(), String> {
         if !c.by_ratio && l >= 2 {
             let r = c.f.powi(l as i32); // kt_finish / kt_start
             let upper = r.powf(1. / l as f64) * (1. + 1e-12);
-            let lower = if l > 2 { r.powf(1. / (l as f64 - 2.)) * (1. - 1e-12) } else { 0. };
+            // with two loops the coldest admissible convention runs the second loop at kt_finish itself
+            let lower = if l > 2 { r.powf(1. / (l as f64 - 2.)) * (1. - 1e-12) } else { r * (1. - 1e-12) };
             let lo = g_lo.max(lower);
             let hi = g_hi.min(upper);
             if !(lo <= hi) {
                 return Err(format!(
-                    "finish path: no single cooling factor explains the loops and ends within one cooling step of kt_finish: acceptance frequencies allow a per-loop factor in [{:.4}, {:.4}], reaching kt_finish = {:e} from kt_start = {} in {} loops needs a factor in [{:.4}, {:.4}]",
+                    "finish path: no single cooling factor explains the loops and ends within one cooling step of kt_finish: acceptance frequencies allow a per-loop factor in [{:e}, {:e}], reaching kt_finish = {:e} from kt_start = {} in {} loops needs a factor in [{:e}, {:e}]",
                     g_lo, g_hi, c.kt_start * r, c.kt_start, l, lower, upper
                 ));
             }
         }
     }
     let nt = l >= 3;
-    let class = format!("{}{}/L{}", if zero { "kT0" } else if c.by_ratio { "ratio" } else { "finish" }, if c.remainder > 0 { "/non-multiple" } else { "" }, if l >= 3 { ">=3" } else { "<3" });
+    let class = format!("{}{}/L{}", if zero { "kT0" } else if c.by_ratio { "ratio" } else if c.extreme_exp.is_some() { "finish-extreme-factor" } else { "finish" }, if c.remainder > 0 { "/non-multiple" } else { "" }, if l >= 3 { ">=3" } else { "<3" });
     rec.class(&class);
     if nt {
         rec.nontrivial(hash_json(&serde_json::to_value(c).unwrap()));
